@@ -167,6 +167,19 @@ func (b Service) VerifySessionV1TokenMessage(m *protosession.SessionToken, reqVe
 		return session.Object{}, err
 	}
 
+	// The cache is shared with the object validator which stores tokens there
+	// after signature check only, so lifetime can not be taken from it.
+	currentEpoch, err := b.nm.Epoch()
+	if err != nil {
+		return session.Object{}, errors.New("can't fetch current epoch")
+	}
+	if sToken.ExpiredAt(currentEpoch) {
+		return session.Object{}, apistatus.ErrSessionTokenExpired
+	}
+	if !sToken.ValidAt(currentEpoch) {
+		return session.Object{}, fmt.Errorf("%s: token is invalid at %d epoch)", invalidRequestMessage, currentEpoch)
+	}
+
 	if err := b.verifySessionTokenAgainstRequest(sToken, reqVerb, reqCnr, reqObj); err != nil {
 		return session.Object{}, err
 	}
